@@ -118,6 +118,17 @@ def impl_search(ctx: Ctx, n: int):
                 t = a.model_copy(deep=True)
                 t += t
                 checks.append(("%s: a += a equals a + a (operand aliases the accumulator)" % cname, [a], t, a + a))
+                # in-place accumulation that starts from a SUM (a + 0, 0 + a, a + b) agrees with repeated + of the same operands taken
+                # afterwards: a sum that is one of its operands would let the accumulation rewrite that operand
+                for sname, mk in (("a + 0", lambda: a + cls()), ("0 + a", lambda: cls() + a)):
+                    a_before = a.model_copy(deep=True)
+                    acc3 = mk()
+                    acc3 += b
+                    acc3 += c
+                    checks.append(("%s: in-place accumulation onto (%s) = repeated +, operands read afterwards" % (cname, sname),
+                                   [a_before, b, c], acc3, (a + b) + c))
+                    for f in type(a).model_fields:        # put the operand back so that the later checks see the generated block
+                        setattr(a, f, getattr(a_before, f))
                 t2 = b.model_copy(deep=True)
                 for x in [a, t2, c]:
                     t2 += x
